@@ -1053,17 +1053,6 @@ def m_int_from_bytes(I, args, kwargs):
     return SInt(be_int(I, e, n), 256**n - 1)
 
 
-def m_hash(I, args, kwargs):
-    itp = _itp()
-    v = args[0]
-    if isinstance(v, SObj):
-        f = I.class_lookup(v.cls, "__hash__")
-        if f is None:
-            I.raise_py(TypeError, "unhashable")
-        return I.call(itp.BoundMethod(v, itp.unwrap_function(f), "__hash__"), [], {})
-    raise Unsupported("hash() of a symbolic value")
-
-
 def m_getattr(I, args, kwargs):
     if not isinstance(args[1], str):
         raise Unsupported("getattr with symbolic name")
@@ -1208,7 +1197,13 @@ _HASH_BYTES = z3.Function("hash_of_bytes", S.SeqI, S.IntS)
 def m_hash(I, args, kwargs):
     """hash(b) of an octet string: some fixed function of its content (nothing else is assumed about it)"""
     v = args[0]
-    if not _itp().has_sym([v]):
+    itp = _itp()
+    if isinstance(v, SObj):
+        f = I.class_lookup(v.cls, "__hash__")
+        if f is None:
+            I.raise_py(TypeError, "unhashable")
+        return I.call(itp.BoundMethod(v, itp.unwrap_function(f), "__hash__"), [], {})
+    if not itp.has_sym([v]):
         return hash(v)
     M = _m()
     if M.is_bytes_like(v):
